@@ -473,9 +473,21 @@ void h_version_get(void) {
   CANARY();
 }
 
+static ldb_slice_t g_uks, g_iks;
+static void mk_lookup(void) {
+  g_uk = nondet_u8(); g_lseq = nondet_u64(); ASSUME(g_lseq <= LDB_MAX_SEQUENCE);
+  g_lk.space[0] = 9;
+  { ldb_buffer_t t; mk_ikey(&t, g_lk.space + 1, g_uk, (g_lseq << 8) | 1); }
+  g_lk.start = g_lk.space; g_lk.kstart = g_lk.space + 1; g_lk.end = g_lk.space + 10;
+  g_uks.data = g_lk.space + 1; g_uks.size = 1; g_uks.alloc = 0;
+  g_iks.data = g_lk.space + 1; g_iks.size = 9; g_iks.alloc = 0;
+}
+
+/* the harnesses below call the static function ldb_version_for_each_overlapping directly: units that only go through
+ * ldb_version_get define VER_NO_DIRECT_FOREACH so that they keep compiling when that function's signature changes */
+#ifndef VER_NO_DIRECT_FOREACH
 /* ---- ver.foreach proper: visit order of for_each_overlapping with a recording callback ---- */
 static int g_stopped; static int g_cb_arg;
-static ldb_slice_t g_uks, g_iks;
 static int fe_cb(void *arg, int level, ldb_filemeta_t *f) {
   __CPROVER_assert(arg == &g_cb_arg, "for_each_overlapping: callback argument passed through");
   __CPROVER_assert(!g_stopped, "for_each_overlapping: no file is visited after the callback asked to stop");
@@ -494,14 +506,6 @@ __CPROVER_assigns(g_calls, g_stopped)
 /* unless the callback stops the walk, every expected file is visited (NOTFOUND only after all were consulted) */
 __CPROVER_ensures(!g_stopped ==> g_calls == g_exp_n)
 ;
-static void mk_lookup(void) {
-  g_uk = nondet_u8(); g_lseq = nondet_u64(); ASSUME(g_lseq <= LDB_MAX_SEQUENCE);
-  g_lk.space[0] = 9;
-  { ldb_buffer_t t; mk_ikey(&t, g_lk.space + 1, g_uk, (g_lseq << 8) | 1); }
-  g_lk.start = g_lk.space; g_lk.kstart = g_lk.space + 1; g_lk.end = g_lk.space + 10;
-  g_uks.data = g_lk.space + 1; g_uks.size = 1; g_uks.alloc = 0;
-  g_iks.data = g_lk.space + 1; g_iks.size = 9; g_iks.alloc = 0;
-}
 static void for_each_common(size_t in_n0, size_t in_n1, size_t in_n2, size_t in_n3, size_t in_n4, size_t in_n5, size_t in_n6) {
   ASSUME(in_n0 <= GETF0 && in_n1 <= GETFL && in_n2 <= GETFL && in_n3 <= GETFL && in_n4 <= GETFL && in_n5 <= GETFL && in_n6 <= GETFL);
   mk_version();
@@ -574,6 +578,8 @@ void h_getstate_match(void) {
   CANARY();
 }
 
+#endif /* VER_NO_DIRECT_FOREACH */
+
 /* ---- ver.get: the whole chain on a small version (<= 1 file in level 0, <= 1 file in level 1) ---- */
 void h_version_get_small(void) {
   IN_SIZE(in_n0); IN_SIZE(in_n1); IN_INT(in_want_value);
@@ -584,6 +590,22 @@ void h_version_get_small(void) {
   g_cache = (ldb_tables_t *)&g_ropt; g_vset.table_cache = g_cache;
   mk_lookup();
   g_exp_n = 0; exp_level0(); exp_level(1);
+  g_calls = 0; g_decided = D_NONE; g_rc = 0; g_vn = 0;
+  value.data = NULL; value.size = 0; value.alloc = 0;
+  ldb_version_get(&g_ver, &g_ropt, &g_lk, in_want_value ? &value : NULL, &stats);
+  CANARY();
+}
+
+/* ---- ver.get.l1: the whole chain with TWO files in level 1 (a user key's versions may straddle them) ---- */
+void h_version_get_l1(void) {
+  IN_SIZE(in_n1); IN_INT(in_want_value);
+  ldb_buffer_t value; ldb_getstats_t stats;
+  ASSUME(in_n1 <= GETFL);
+  mk_version(); mk_level(1, in_n1);
+  ASSUME(DISJOINT_SORTED(1));
+  g_cache = (ldb_tables_t *)&g_ropt; g_vset.table_cache = g_cache;
+  mk_lookup();
+  g_exp_n = 0; exp_level(1);
   g_calls = 0; g_decided = D_NONE; g_rc = 0; g_vn = 0;
   value.data = NULL; value.size = 0; value.alloc = 0;
   ldb_version_get(&g_ver, &g_ropt, &g_lk, in_want_value ? &value : NULL, &stats);
